@@ -223,6 +223,26 @@ theorem parked_no_drain_loses : ∃ s, run ⟨1, false, true⟩ {} [.writeReturn
 them, and the parked caller whose reply arrived leaves with it whatever happened to the connection meanwhile. -/
 theorem no_close_case_takes_reply : (run ⟨1, true, true⟩ {} [.writeReturns, .readerDeliver, .readerClose, .pickReply]).map (·.phase) = some .gotReply := by decide
 
+/-! ### The waiter table over the life of a connection: the key registered is the key looked up -/
+section Ids
+open Model.C02.Ids
+
+/-- **C02 (long-lived connections).** With the waiter registered under the id that goes on the wire, the reply to the
+`ctr`-th query of a connection finds its waiter for EVERY `ctr` (also after the 16-bit id space has been used up, any
+number of times), whatever the width of the counter. -/
+theorem waiter_found_always (bits ctr : Nat) : finds true bits ctr = true := by
+  simp [finds, regKey, lookupKey]
+
+/-- A 16-bit counter used as the key directly is the same thing. -/
+theorem waiter_found_16 (k : Bool) (ctr : Nat) : finds k 16 ctr = true := by
+  cases k <;> simp [finds, regKey, lookupKey, wire, held]
+
+/-- A wider counter used as the key: the first 65536 queries are fine, the 65537th reply finds nobody.
+Hence the guards `c02TdcWaiterKeyIsWireId` / `c02TdcQidCounterBits`. -/
+theorem wide_key_loses : finds false 32 65535 = true ∧ finds false 32 65536 = false := by decide
+
+end Ids
+
 /-! ### Guards over the regenerated facts -/
 theorem facts_guard :
     (∃ n, Gen.Facts.c02TdcRespChanCap = some n ∧ 1 ≤ n) ∧ (∃ n, Gen.Facts.c02ReuseRespChanCap = some n ∧ 1 ≤ n) ∧
@@ -232,8 +252,9 @@ theorem facts_guard :
     Gen.Facts.c02CallerCtxReachesWait = some true ∧ Gen.Facts.c02DohBodyReadToEOF = some true ∧
     Gen.Facts.c02DohWaitsOnCallerCtx = some true ∧
     (∃ n, Gen.Facts.c02QuicRespChanCap = some n ∧ 1 ≤ n) ∧ Gen.Facts.c02QuicWaitOnlyCtxAndReply = some true ∧
-    Gen.Facts.c02ObserverLayerKeepsRead = some true := by
-  refine ⟨⟨1, by decide⟩, ⟨1, by decide⟩, ?_, ?_, ?_, ?_, ?_, ?_, ?_, ?_, ⟨1, by decide⟩, ?_, ?_⟩ <;> decide
+    Gen.Facts.c02ObserverLayerKeepsRead = some true ∧
+    Gen.Facts.c02TdcWaiterKeyIsWireId = some true ∧ Gen.Facts.c02TdcQidCounterBits = some 16 := by
+  refine ⟨⟨1, by decide⟩, ⟨1, by decide⟩, ?_, ?_, ?_, ?_, ?_, ?_, ?_, ?_, ⟨1, by decide⟩, ?_, ?_, ?_, ?_⟩ <;> decide
 
 /-! ### Non-vacuity: reply during the send, then EOF, then the caller parks -/
 example : (run ⟨1, true, true⟩ {} [.readerDeliver, .readerClose, .writeReturns, .pickClose]).map (·.phase) = some .gotReply := by decide
